@@ -44,7 +44,7 @@ EncCases(vals, Enc(_), fn) ==
 CutCases(vals, Enc(_), fn) ==
   Concat([j \in 1..Len(vals) |->
     LET e == Enc(vals[j]) IN
-    IF Len(e) > 24 \/ j % 2 = 0 THEN <<>>
+    IF Len(e) > (IF Thorough THEN 600 ELSE 24) \/ (~Thorough /\ j % 2 = 0) THEN <<>>
     ELSE [k1 \in 1..Len(e) |-> Mk("cut", fn, "", 0, SubSeq(e, 1, k1 - 1), <<>>, 0)]])
 
 (* all 256 curve types: only explicit-prime (1) and named-curve (3) are accepted *)
